@@ -48,7 +48,7 @@ func profile() gen.Profile {
 func TestValidation(t *testing.T) {
 	n := rt.EnvInt("VERIF_CHECKS", 24)
 	seed := rt.EnvInt("VERIF_SEED", 1)
-	sess, built := rt.Prepare(t, "c04", rt.Options{Profile: profile(), N: n, Seed: seed, Keep: func(d *m.Design) bool { return true }, Extra: []*m.Design{gen.ParamMatrix(), gen.ValidationMatrix()}})
+	sess, built := rt.Prepare(t, "c04", rt.Options{Profile: profile(), N: n, Seed: seed, Keep: func(d *m.Design) bool { return true }, Extra: []*m.Design{gen.ParamMatrix(), gen.ValidationMatrix(), gen.InheritMatrix()}})
 	defer sess.Close()
 	defer rt.CloseAll(built)
 	if len(built) == 0 {
